@@ -66,7 +66,20 @@ def run(ctx):
         good = good and isin in guard_set(p) and len(subs) == 1 and subs[0]["m"] == "_build" and subs[0]["target"] == subcon \
             and subs[0]["obj"] == value and p.retval == subs[0]["res"]
     ctx.ob("C13.R1", fi, good, "Const._build always emits the encoding of self.value (never of obj) and returns the sub-build result", key="build value")
-    ctx.floor("C13.R1", 5)
+    fi, paths = own_method_paths(ctx, "Const", "__init__")
+    val, sc = ("param", "value"), ("param", "subcon")
+    dflt = [p for p in paths if p.outcome[0] != "raise" and N.mk_cmp("is", sc, N.NONE) in p.guards()]
+    given = [p for p in paths if p.outcome[0] != "raise" and N.mk_cmp("is not", sc, N.NONE) in p.guards()]
+    def sup(p):
+        s_ = [e for e in p.events if e.kind == "SUPERCALL" and e["method"] == "__init__"]
+        return tuple(s_[0]["args"]) if len(s_) == 1 else None
+    want = (("ctor", "Bytes", (("call", ("free", "len"), (val,), ()),), ()),)
+    ok = bool(dflt) and all(sup(p) == want for p in dflt) and bool(given) and all(sup(p) == (sc,) for p in given) \
+        and all(any(e.kind == "SELFWRITE" and e["attr"] == "value" and e["value"] == val for e in p.events) for p in dflt + given)
+    ctx.ob("C13.R1", fi, ok, "Const(value) without a sub-construct wraps Bytes(len(value)); with one it wraps that; the constant is stored as given", key="Const init")
+    bad = [p for p in paths if p.outcome[0] == "raise"]
+    ctx.ob("C13.R1", fi, all(("call", ("free", "isinstance"), (val, ("free", "bytes")), ()) not in p.guards() for p in bad) and bool(bad), "a non-bytes constant without a sub-construct is refused at construction", key="Const init guard")
+    ctx.floor("C13.R1", 7)
 
     # ---------------------------------------------------------------- R2 validators
     fi, paths = own_method_paths(ctx, "Adapter", "_parse")
